@@ -24,7 +24,7 @@ PROPS = {
  'C10': dict(level='proof', sections=None, result_ops=['*'], monitors=[], uses_generated=True, determinism=True,
              partial='runtime half (goroutine scheduling, map seeds) is differential only: re-executions compared byte for byte incl. app hash'),
  'C11': dict(level='proof', sections=['vpn/node/10', 'param'], result_ops=['tx:nodeRegister', 'tx:nodeUpdate', 'tx:nodeSubscribe', 'gov'], monitors=['prices']),
- 'C12': dict(level='proof', sections=None, result_ops=['export', 'reimport'], monitors=[], roundtrip=True,
+ 'C12': dict(level='proof', sections=None, result_ops=['export', 'reimport'], monitors=['exportValid'], roundtrip=True,
              partial='subscriptions/allocations/payouts/counters are not exported (F5), the session counter is rebuilt from live ids (F9), small swaps invalidate the export (F4): known findings; roundtrip_partial covers the surviving tables'),
  'C13': dict(level='proof', sections=[], result_ops=['query'], monitors=[], uses_generated=True, probe=True),
  'C14': dict(level='proof', sections=['swap', 'bank', 'supply'], result_ops=['tx:swap'], monitors=['swaps', 'supply'], uses_generated=True),
